@@ -8,6 +8,7 @@ import random
 
 from cnfgen.formula.cnf import CNF
 from cnfgen.localtypes import non_negative_int
+from cnfgen.families.randomformulas import sample_variables
 
 def parity_satisfied(X, b, assignments):
     """Test whether a clause is satisfied by all assignments
@@ -48,7 +49,7 @@ wasteful for just few samples."""
     while len(sampled_list) < m and t < 10 * m:
         t += 1
 
-        X = sorted(random.sample(variables, k))
+        X = sorted(sample_variables(variables, k))
         b      = random.randint(0,1)
         sample = tuple(X+[b])
 
